@@ -1,14 +1,21 @@
 ------------------------------- MODULE MC_Ingest -------------------------------
 (* Exhaustive design model for C07.  TLC enumerates: path x codec x audio (codec, clock rate) x    *)
 (* every sequence of frame shapes x packetisation class / PS packing / AvPacket framing x SDP with *)
-(* or without parameter sets x first sequence number x timestamp base; builds the source stream,   *)
+(* or without parameter sets x first sequence number x timestamp region; builds the source stream,  *)
 (* the RTP packet plan / PS packing and the design's output (Machine) and checks Conforms; then    *)
 (* every arrival order of the RTP packets of the perturbed track inside the reorder window with    *)
 (* at most MaxOvt overtakings and one duplicate.  @S@ lines carry the built scenario (once per     *)
 (* parameter record), @O@ lines the completed arrival orders.                                     *)
+(* Timestamp regions (Reg): where the source clock of a track stands - near 0, 10^9, across 2^31,  *)
+(* across 2^32 (wrap of the RTP field, bit 32 of the PS clock, end of the 32-bit RTMP range for    *)
+(* customize ms), above 2^32, across 2^33 (wrap of the PS clock), at a Unix-epoch ms value.  The   *)
+(* full product of shapes and packings runs in the regions BaseRegs with both tracks in the same   *)
+(* region; the streams TsShps x packings TsRtspCls / TsPsPk / TsCustFmt run with every pair of     *)
+(* regions (video, audio) of TsRegsRtsp / TsRegsPs / TsRegsCust and the audio clocks TsAudios*.    *)
 EXTENDS Ingest
 
-CONSTANTS Paths, Vcs, AudiosRtsp, AudiosOther, MaxV, S0s, Bases, Win, MaxPert, RtspCls, PsPk, CustFmt, ShapeIds
+CONSTANTS Paths, Vcs, AudiosRtsp, AudiosOther, MaxV, S0s, BaseRegs, Win, MaxPert, RtspCls, PsPk, CustFmt, ShapeIds,
+          TsShpNames, TsRegsRtsp, TsRegsPs, TsRegsCust, TsAudiosRtsp, TsAudiosOther, TsRtspCls, TsPsPk, TsCustFmt, TsS0s
 
 VARIABLES par, n, order, cnt, dup, pert, fin
 vars == <<par, n, order, cnt, dup, pert, fin>>
@@ -38,19 +45,41 @@ Expand(vc, sh, i) == IF i > Len(sh) THEN <<>>
                      ELSE (IF sh[i] = "ps" THEN Need(vc) ELSE <<sh[i]>>) \o Expand(vc, sh, i + 1)
 ShpSeqs == UNION { [1..k -> ShapeIds] : k \in 1..MaxV }
 
-\* PS packings: PES per video frame, RTP packets per pack, PTS on every PES, system header, PSM on
-\* every key frame, audio PES joined to the preceding pack
-PsTab == [p1 |-> [m |-> 1, c |-> 1, pall |-> TRUE, sys |-> TRUE, psme |-> TRUE, join |-> FALSE],
-          p2 |-> [m |-> 2, c |-> 1, pall |-> TRUE, sys |-> FALSE, psme |-> FALSE, join |-> FALSE],
-          p3 |-> [m |-> 3, c |-> 2, pall |-> FALSE, sys |-> TRUE, psme |-> TRUE, join |-> TRUE],
-          p4 |-> [m |-> 2, c |-> 3, pall |-> FALSE, sys |-> FALSE, psme |-> TRUE, join |-> FALSE],
-          p5 |-> [m |-> 1, c |-> 2, pall |-> TRUE, sys |-> TRUE, psme |-> FALSE, join |-> TRUE],
-          p6 |-> [m |-> 0, c |-> 1, pall |-> FALSE, sys |-> TRUE, psme |-> TRUE, join |-> FALSE]]
+\* PS packings: PES per video / audio frame (m / ma), RTP packets per pack, PTS on every PES, system header, PSM on
+\* every key frame, audio PES joined to the preceding pack, DTS field written (PTS_DTS_flags = 3) with
+\* PTS - DTS = dv / da ticks on the video / audio track
+PsTab == [p1 |-> [m |-> 1, ma |-> 1, c |-> 1, pall |-> TRUE, sys |-> TRUE, psme |-> TRUE, join |-> FALSE, dts |-> FALSE, dv |-> 0, da |-> 0],
+          p2 |-> [m |-> 2, ma |-> 2, c |-> 1, pall |-> TRUE, sys |-> FALSE, psme |-> FALSE, join |-> FALSE, dts |-> FALSE, dv |-> 0, da |-> 0],
+          p3 |-> [m |-> 3, ma |-> 2, c |-> 2, pall |-> FALSE, sys |-> TRUE, psme |-> TRUE, join |-> TRUE, dts |-> FALSE, dv |-> 0, da |-> 0],
+          p4 |-> [m |-> 2, ma |-> 1, c |-> 3, pall |-> FALSE, sys |-> FALSE, psme |-> TRUE, join |-> FALSE, dts |-> FALSE, dv |-> 0, da |-> 0],
+          p5 |-> [m |-> 1, ma |-> 1, c |-> 2, pall |-> TRUE, sys |-> TRUE, psme |-> FALSE, join |-> TRUE, dts |-> FALSE, dv |-> 0, da |-> 0],
+          p6 |-> [m |-> 0, ma |-> 1, c |-> 1, pall |-> FALSE, sys |-> TRUE, psme |-> TRUE, join |-> FALSE, dts |-> FALSE, dv |-> 0, da |-> 0],
+          p7 |-> [m |-> 1, ma |-> 1, c |-> 1, pall |-> TRUE, sys |-> TRUE, psme |-> TRUE, join |-> FALSE, dts |-> TRUE, dv |-> 0, da |-> 0],
+          p8 |-> [m |-> 2, ma |-> 2, c |-> 2, pall |-> FALSE, sys |-> TRUE, psme |-> TRUE, join |-> TRUE, dts |-> TRUE, dv |-> 3000, da |-> 900],
+          p9 |-> [m |-> 2, ma |-> 2, c |-> 1, pall |-> TRUE, sys |-> FALSE, psme |-> TRUE, join |-> FALSE, dts |-> TRUE, dv |-> 7200, da |-> 0]]
 
+\* timestamp regions: at = the landmark, x = the track crosses it (else it starts there)
+Reg == [lo  |-> [at |-> <<0, 0, 0>>, x |-> FALSE],
+        g1  |-> [at |-> <<0, 15258, 51712>>, x |-> FALSE],          \* 10^9
+        m31 |-> [at |-> <<0, 32768, 0>>, x |-> TRUE],               \* 2^31
+        x32 |-> [at |-> <<1, 0, 0>>, x |-> TRUE],                   \* 2^32
+        hi  |-> [at |-> <<1, 32768, 0>>, x |-> FALSE],              \* 2^32 + 2^31
+        x33 |-> [at |-> <<2, 0, 0>>, x |-> TRUE],                   \* 2^33
+        ep  |-> [at |-> <<395, 53221, 26624>>, x |-> FALSE]]        \* 1.7 * 10^12 (Unix ms, 2023)
+ShpTab == [s2 |-> <<1, 5>>, s3 |-> <<2, 7, 5>>, s1 |-> <<3>>]
+TsShps == {ShpTab[x] : x \in TsShpNames}
+
+\* ra = "same": the audio track is in the video track's region
+TsPar(path, aus, vs, sdps, s0s, regs) ==
+  [path : {path} \cap Paths, vc : Vcs, au : aus \ {"none"}, shp : TsShps, v : vs, sdp : sdps, s0 : s0s, rv : regs, ra : regs]
+  \cup [path : {path} \cap Paths, vc : Vcs, au : aus \cap {"none"}, shp : TsShps, v : vs, sdp : sdps, s0 : s0s, rv : regs, ra : {"same"}]
 Params ==
-  [path : {"cust"} \cap Paths, vc : Vcs, au : AudiosOther, shp : ShpSeqs, v : CustFmt, sdp : {FALSE}, s0 : {0}, base : Bases]
-  \cup [path : {"rtsp"} \cap Paths, vc : Vcs, au : AudiosRtsp, shp : ShpSeqs, v : RtspCls, sdp : BOOLEAN, s0 : S0s, base : Bases]
-  \cup [path : {"ps"} \cap Paths, vc : Vcs, au : AudiosOther \ {"opus48000"}, shp : ShpSeqs, v : PsPk, sdp : {FALSE}, s0 : S0s, base : Bases]
+  [path : {"cust"} \cap Paths, vc : Vcs, au : AudiosOther, shp : ShpSeqs, v : CustFmt, sdp : {FALSE}, s0 : {0}, rv : BaseRegs, ra : {"same"}]
+  \cup [path : {"rtsp"} \cap Paths, vc : Vcs, au : AudiosRtsp, shp : ShpSeqs, v : RtspCls, sdp : BOOLEAN, s0 : S0s, rv : BaseRegs, ra : {"same"}]
+  \cup [path : {"ps"} \cap Paths, vc : Vcs, au : AudiosOther \ {"opus48000"}, shp : ShpSeqs, v : PsPk, sdp : {FALSE}, s0 : S0s, rv : BaseRegs, ra : {"same"}]
+  \cup TsPar("cust", TsAudiosOther, TsCustFmt, {FALSE}, {0}, TsRegsCust)
+  \cup TsPar("rtsp", TsAudiosRtsp, TsRtspCls, {FALSE}, TsS0s, TsRegsRtsp)
+  \cup TsPar("ps", TsAudiosOther \ {"opus48000"}, TsPsPk, {FALSE}, TsS0s, TsRegsPs)
 
 ---------------------------------------------------------------------------
 VStep(path) == IF path = "cust" THEN 40 ELSE 3600
@@ -60,14 +89,22 @@ ASec(path, a) == IF path = "rtsp" THEN a.r ELSE VSec(path)
 
 \* size of unit i of frame j: parameter sets grow by one filler byte on every other frame
 USize(k, j, i) == IF k \in ParamKinds THEN 1 + (j % 2) ELSE IF k = "aud" THEN 2 ELSE 7 + 3 * i + j
+\* the first frame of a track (its DTS): at the landmark (+ off), or so that the landmark lies half a
+\* step before the last real frame
+Lead(step, L) == IF L = 1 THEN step \div 2 ELSE ((L - 1) * step) - (step \div 2)
+Start(r, step, L, off) == IF Reg[r].x THEN T3SubN(Reg[r].at, Lead(step, L)) ELSE T3AddN(Reg[r].at, off)
+DV(p) == IF p.path = "ps" /\ PsTab[p.v].dts THEN PsTab[p.v].dv ELSE 0
+DA(p) == IF p.path = "ps" /\ PsTab[p.v].dts THEN PsTab[p.v].da ELSE 0
+VStart(p) == Start(p.rv, VStep(p.path), Len(p.shp), 0)
+AStart(p) == Start(IF p.ra = "same" THEN p.rv ELSE p.ra, AStep(p.path, AudioTab[p.au]), Len(p.shp), 777)
 VFrame(p, j) == LET ks == Expand(p.vc, Shapes[p.shp[j]], 1)
-                IN [trk |-> "v", ts |-> UOf(p.base + (j - 1) * VStep(p.path)),
+                IN [trk |-> "v", ts |-> T3AddN(VStart(p), DV(p) + (j - 1) * VStep(p.path)), d |-> DV(p),
                     us |-> [i \in 1..Len(ks) |-> [k |-> ks[i], id |-> (j - 1) * 6 + i, n |-> USize(ks[i], j, i)]]]
-AFrame(p, j) == [trk |-> "a", ts |-> UOf((p.base \div 2) + 777 + (j - 1) * AStep(p.path, AudioTab[p.au])),
+AFrame(p, j) == [trk |-> "a", ts |-> T3AddN(AStart(p), DA(p) + (j - 1) * AStep(p.path, AudioTab[p.au])), d |-> DA(p),
                  us |-> <<[k |-> "au", id |-> 60 + j, n |-> 9 + j]>>]
-SentV(p, L, x) == [trk |-> "v", ts |-> UOf(p.base + (L - 1) * VStep(p.path) + x * 2 * VSec(p.path)),
+SentV(p, L, x) == [trk |-> "v", ts |-> T3AddN(VStart(p), DV(p) + (L - 1) * VStep(p.path) + x * 2 * VSec(p.path)), d |-> DV(p),
                    us |-> <<[k |-> "idr", id |-> SentId + x, n |-> 9]>>]
-SentA(p, L, x) == [trk |-> "a", ts |-> UOf((p.base \div 2) + 777 + (L - 1) * AStep(p.path, AudioTab[p.au]) + x * 2 * ASec(p.path, AudioTab[p.au])),
+SentA(p, L, x) == [trk |-> "a", ts |-> T3AddN(AStart(p), DA(p) + (L - 1) * AStep(p.path, AudioTab[p.au]) + x * 2 * ASec(p.path, AudioTab[p.au])), d |-> DA(p),
                    us |-> <<[k |-> "au", id |-> SentId + 2 + x, n |-> 9]>>]
 HasA(p) == p.au # "none"
 RECURSIVE Real(_, _)
@@ -104,10 +141,10 @@ PsPlan(p) ==
   ELSE LET fs == Frames(p)
            t == PsTab[p.v]
        IN [f \in 1..Len(fs) |->
-             [f |-> f, m |-> IF fs[f].trk = "v" THEN t.m ELSE 1, c |-> t.c, pall |-> t.pall,
+             [f |-> f, m |-> IF fs[f].trk = "v" THEN t.m ELSE t.ma, c |-> t.c, pall |-> t.pall,
               sys |-> t.sys /\ (f = 1 \/ HasKind(fs[f], {"idr"})),
               psm |-> f = 1 \/ (t.psme /\ HasKind(fs[f], ParamKinds \cup {"idr"})),
-              join |-> t.join /\ fs[f].trk = "a" /\ f > 1]]
+              join |-> t.join /\ fs[f].trk = "a" /\ f > 1, dts |-> t.dts]]
 
 SdpSets(p) == IF p.sdp THEN [x \in 1..Len(Need(p.vc)) |-> [k |-> Need(p.vc)[x], n |-> 1]] ELSE <<>>
 Asc(p) == <<2, AudioTab[p.au].fi, IF AudioTab[p.au].r >= 44100 THEN 2 ELSE 1>>
@@ -121,7 +158,7 @@ NPert(p) == IF p.path = "rtsp" THEN LET fs == Frames(p) IN Len(SelectSeq(Plan(p)
 
 Scen(p) == [path |-> p.path, vc |-> p.vc, ac |-> AudioTab[p.au].c, vrate |-> 90000, arate |-> AudioTab[p.au].r,
             asc |-> Asc(p), sdp |-> SdpSets(p), fmt |-> p.v, frames |-> Frames(p), plan |-> Plan(p), ps |-> PsPlan(p),
-            s0 |-> p.s0, ptrk |-> PTrk(p), np |-> NPert(p)]
+            s0 |-> p.s0, ptrk |-> PTrk(p), np |-> NPert(p), reg |-> [v |-> p.rv, a |-> p.ra]]
 Out(p) == Machine(p.path, p.vc, AudioTab[p.au].c, 90000, AudioTab[p.au].r, Asc(p), SdpSets(p), Frames(p), Plan(p))
 
 ---------------------------------------------------------------------------
